@@ -37,7 +37,7 @@ theorem once_marks_seen (W : World) (f : Nat) (ctx : Ctx) (st st' : St) (tag : S
 
 /-- (3) every render starts afresh: the evaluation of a page begins with an empty `seen` set -/
 theorem fresh_per_render (W : World) (fuel : Nat) (file : Str) (dom : List Node) (stack : Stack) :
-    evaluatePage W fuel file dom stack = evalList W fuel { slots := none, chain := [file] } { stack := stack, seen := [] } (resolveTagsList W.comps dom) := rfl
+    evaluatePage W fuel file dom stack = evalList W fuel { slots := [], chain := [file] } { stack := stack, seen := [] } (resolveTagsList W.comps dom) := rfl
 
 /-- (4) distinct marked elements never suppress one another: ids are `file#n` with `n` counting the marked elements of that file in
     document order, so the counter after numbering a forest is the number of marked elements numbered so far and never decreases -/
